@@ -71,6 +71,14 @@ Write(t, data, ret, seen) ==
                       (seen.mode \cap GroupOther) \subseteq (cfg.mode[t] \cap GroupOther))
     /\ UNCHANGED cfg
 
+(* Somebody else replaced what the file holds (a restored backup, a deployment *)
+(* tool, an editor) between two writes of the daemon: the next write still      *)
+(* leaves exactly its data - also when that data is what the daemon wrote last. *)
+External(t, seen) ==
+    /\ file' = [file EXCEPT ![t] = [seen EXCEPT !.byDaemon = file[t].byDaemon]]
+    /\ last' = [last EXCEPT ![t] = <<>>]
+    /\ bad' = {} /\ UNCHANGED cfg
+
 -----------------------------------------------------------------------------
 (* Model checking: all histories of MaxOps writes, every configuration of the *)
 (* MCConfigs set, every pre-existing file.                                     *)
